@@ -1,6 +1,6 @@
 """Probe for C05: real ScheduleHandle.__call__ with real IterationBased / TimePeriodBased under a symbolic clock."""
 import sys, z3, os, logging
-sys.path.insert(0, "/repo"); sys.path.insert(0, os.path.dirname(__file__)); logging.disable(logging.CRITICAL)
+sys.path.insert(0, __import__("os").environ.get("VERIF_REPO", "/repo")); sys.path.insert(0, os.path.dirname(__file__)); logging.disable(logging.CRITICAL)
 import symx_prototype as symx
 from symx_prototype import SInt, SBool, SReal
 from esrally.driver import driver, scheduler
